@@ -125,7 +125,42 @@ def reduce_plain(a: XArray, fn, axis):
     return XArray(shape, out)
 
 
+class SymCond:
+    """an undecided elementwise comparison of symbolic values (kept as data; only a rule that knows the branch may use it)"""
+
+    _xeval_open = True
+
+    def __init__(self, op, a, b):
+        self.op, self.a, self.b = op, a, b
+
+    def __bool__(self):
+        raise AnalysisError(f"truth value of the undecided comparison {self.a!r} {self.op} {self.b!r}")
+
+    def __repr__(self):
+        return f"SymCond({self.a!r} {self.op} {self.b!r})"
+
+
+def _scmp(op):
+    import operator
+
+    f = {">": operator.gt, "<": operator.lt, ">=": operator.ge, "<=": operator.le}[op]
+
+    def cmp(x, y):
+        x, y = exact(x), exact(y)
+        cx = x.const_value() if isinstance(x, Poly) and x.is_const() else x
+        cy = y.const_value() if isinstance(y, Poly) and y.is_const() else y
+        if isinstance(cx, Poly) or isinstance(cy, Poly):
+            return SymCond(op, x, y)
+        return bool(f(cx, cy))
+
+    return cmp
+
+
 _UF = {
+    "greater": _scmp(">"),
+    "less": _scmp("<"),
+    "greater_equal": _scmp(">="),
+    "less_equal": _scmp("<="),
     "add": lambda x, y: x + y,
     "subtract": lambda x, y: x - y,
     "multiply": lambda x, y: x * y,
@@ -202,6 +237,18 @@ class FeV(XArray):
 
     def __neg__(self):
         return self._uf("multiply", Q(-1), True)
+
+    def __gt__(self, o):
+        return self._uf("greater", o, False)
+
+    def __lt__(self, o):
+        return self._uf("less", o, False)
+
+    def __ge__(self, o):
+        return self._uf("greater_equal", o, False)
+
+    def __le__(self, o):
+        return self._uf("less_equal", o, False)
 
     def __matmul__(self, o):
         return FeV.model.call_method(self, "__matmul__", [o])
